@@ -567,7 +567,7 @@ func checkNameAndOverwrite(r *Run, p *Prog) {
 			q, vis := c.ReachAvoiding([]Point{c.Entry()}, nil, isDup)
 			var path []string
 			for _, ex := range c.Exits() {
-				if ex.Return != nil && len(ex.Return.Results) == 1 && isNilIdent(fn, ex.Return.Results[0]) && vis[ex.P] {
+				if ex.Return != nil && mayReturnNilError(fn, ex.Return) && vis[ex.P] {
 					path = q.PathTo(ex.P)
 				}
 			}
